@@ -130,6 +130,14 @@ func snapJSON(v scorch.VerifSnap) map[string]any {
 	return map[string]any{"epoch": int(v.Epoch), "segs": segs, "internal": v.Internal}
 }
 
+func strsA(ss []string) []any {
+	out := []any{}
+	for _, s := range ss {
+		out = append(out, s)
+	}
+	return out
+}
+
 func ints(xs []uint64) []any {
 	out := []any{}
 	for _, x := range xs {
@@ -192,7 +200,34 @@ func (r *Recorder) eventFor(point string, s *scorch.Scorch, args []interface{}) 
 	case "purge.bolt.done":
 		return "PurgeBoltDone", map[string]any{"removed": args[0]}
 	case "purge.zap":
-		return "PurgeZap", map[string]any{"file": args[0]}
+		// fired inside the purger's rootLock section: the bookkeeping the guard looked at, the
+		// root's files and what the metadata store names at this very moment
+		ev := map[string]any{"file": args[0]}
+		if s != nil {
+			st := s.VerifStateLocked()
+			copies := []string{}
+			for f, n := range st.CopyScheduled {
+				if n > 0 {
+					copies = append(copies, f)
+				}
+			}
+			sort.Strings(copies)
+			named := map[string]bool{}
+			if bf, err := s.VerifBoltFiles(); err == nil {
+				for _, fs := range bf {
+					for _, f := range fs {
+						named[f] = true
+					}
+				}
+			}
+			nl := []string{}
+			for f := range named {
+				nl = append(nl, f)
+			}
+			sort.Strings(nl)
+			ev["rootfiles"], ev["inel"], ev["copysched"], ev["named"] = strsA(st.RootFiles), strsA(st.Ineligible), strsA(copies), strsA(nl)
+		}
+		return "PurgeZap", ev
 	case "purge.end":
 		return "PurgeEnd", kv
 	case "merge.take":
